@@ -315,7 +315,7 @@ namespace
 {
 struct SpinConfig
 {
-  std::vector<std::vector<uint8_t>> prog;  // per thread: 0 lock, 1 try_lock, 2 unlock, 3 work
+  std::vector<std::vector<uint8_t>> prog;  // per thread: 0 lock, 1 try_lock, 2 unlock, 3 work, 4 sleep 3 ms
 };
 
 void run_spin(vh::Case &c, const SpinConfig &cfg)
@@ -387,6 +387,11 @@ void run_spin(vh::Case &c, const SpinConfig &cfg)
                 mu.unlock();
               }
               break;
+            case 4:
+              // a long (virtual) pause, typically inside the critical section: waiters then go
+              // through several back-off rounds of lock() (spin, yield, 1 ms sleep) while it is held
+              vsched::this_thread::sleep_for(std::chrono::milliseconds(3));
+              break;
             default:
               vsched::point();
               break;
@@ -433,7 +438,10 @@ SpinConfig decode_spin(vh::Reader &rd)
     std::vector<uint8_t> p;
     int n = 1 + static_cast<int>(rd.below(5));
     for (int i = 0; i < n; ++i)
-      p.push_back(static_cast<uint8_t>(rd.weighted({4, 3, 3, 1})));
+    {
+      static const uint8_t op_of[12] = {0, 0, 0, 0, 1, 1, 1, 2, 2, 2, 3, 4};
+      p.push_back(op_of[rd.below(12)]);
+    }
     cfg.prog.push_back(p);
   }
   return cfg;
@@ -450,7 +458,7 @@ VH_TARGET(spin_sched, 3,
   {
     s += "[";
     for (uint8_t op : p)
-      s += "LTUw"[op];
+      s += "LTUwS"[op];
     s += "]";
   }
   c.note(s);
@@ -480,8 +488,8 @@ std::vector<uint8_t> encode_spin(const SpinConfig &cfg)
   for (auto &p : cfg.prog)
   {
     b.push_back(static_cast<uint8_t>(p.size() - 1));
-    // weighted({4,3,3,1}) over 11: 0..3 -> 0, 4..6 -> 1, 7..9 -> 2, 10 -> 3
-    static const uint8_t code[] = {0, 4, 7, 10};
+    // inverse of op_of[] in decode_spin
+    static const uint8_t code[] = {0, 4, 7, 10, 11};
     for (uint8_t op : p)
       b.push_back(code[op]);
   }
@@ -543,7 +551,7 @@ extern "C" int vh_exhaustive(const char *tier)
     {
       l += " [";
       for (uint8_t op : p)
-        l += "LTUw"[op];
+        l += "LTUwS"[op];
       l += "]";
     }
     jobs.push_back(Job{sp, encode_spin(c), l, pbound, 0, max});
@@ -552,6 +560,8 @@ extern "C" int vh_exhaustive(const char *tier)
   spjob({{1, 2}, {0, 2}}, pb, cap_sched);
   spjob({{0, 2, 1}, {1, 2, 0}}, 2, cap_sched);
   spjob({{0, 2}, {0, 2}, {1}}, 2, cap_sched);
+  spjob({{0, 4, 2}, {0, 2}}, 2, cap_sched);
+  spjob({{0, 4, 2}, {0, 2}, {1, 2}}, 1, cap_sched);
 
   for (auto &j : jobs)
   {
